@@ -140,12 +140,37 @@ func waitFor(d time.Duration, cond func() bool) bool {
 		if time.Now().After(deadline) {
 			return false
 		}
-		if i < 20 {
+		switch {
+		case i < 20:
 			runtime.Gosched()
-		} else {
+		case i < 60:
 			time.Sleep(50 * time.Microsecond)
+		default:
+			time.Sleep(500 * time.Microsecond)
 		}
 	}
+}
+
+// settle waits until cond holds. The statement's "ends once the executing
+// requests return" is polled for `quiesce`; after that only goroutines that
+// are PARKED count: while one of the goroutines returned by left is running or
+// runnable (a starved machine) the wait goes on, up to ten times as long.
+func settle(cond func() bool, left func() []gor) bool {
+	for round := 0; round < 10; round++ {
+		if waitFor(quiesce, cond) {
+			return true
+		}
+		busy := false
+		for _, g := range left() {
+			if g.state == "running" || g.state == "runnable" {
+				busy = true
+			}
+		}
+		if !busy {
+			return false
+		}
+	}
+	return false
 }
 
 // ---------------------------------------------------------------------------
